@@ -4,3 +4,4 @@ pub mod reg;
 pub mod runner;
 pub mod crash;
 pub mod deser;
+pub mod fault;
